@@ -1,5 +1,6 @@
 import WfModel.Lemmas.C01
 import WfModel.Generated
+import WfModel.Lemmas.Render.Example
 
 /-!
 # C01 — scalar comparisons and boolean logic evaluate per the reference semantics
@@ -224,6 +225,70 @@ theorem bang_binds_tightest (env : PEnv) (lw : Level) (x : Input) :
       | .ok (e, r) => .ok ({ node := .unaryNot e.node, ty := e.ty }, r) :=
   simpleL_bang env lw x
 
+/-! ## 5b. Precedence at CHARACTER level, for whole filters (`parse_render_logical`, **S**)
+
+Definitions (`Lemmas/Render/Defs.lean`): `Sk α` = logical skeleton over abstract atoms
+(`atom`, `not`, `paren`, `chain first [(o₁,e₁),…]`); `Renders A tight sk s` = `s` is one of the
+spellings of `sk` (any alias of `logicalOps` / `unaryOps` per occurrence, any layout; a space is
+mandatory only between an operand ending with an atom and the next combining operator, and not
+even there for symbolic operators when `tight`); `GoodAtom` = the comparison lexer reads the
+atom's text to the atom's `Bool` node before every continuation the atom stops at (`Stop`), the
+text is not a unary operator / quantifier call, the node is not `combining`; `canon` = the
+declarative meaning (`layered` for chains); `Admissible` = no combining operator follows (and an
+atom at the end is followed by something it stops at). The same theorem is the base of the
+alias/layout invariance of C07 (`Props/C07Render.lean`). -/
+
+open WfModel.Render in
+/-- **parse_render_logical (S).** Every rendering `s` of every skeleton `sk` whose parentheses
+and `not`s fit the nesting budget `n` is read by `LogicalExpr::lex_with` to exactly the
+declarative meaning `canon sk` (type `Bool`), leaving any admissible continuation `rest`. -/
+theorem parse_render_logical {α : Type} (env : PEnv) (A : Atoms α) (tight : Bool)
+    (hA : ∀ a, GoodAtom env A tight a) (sk : Sk α) (s : Input) (n : Nat)
+    (hr : Renders A tight sk s) (hn : depth sk ≤ n)
+    (rest : Input) (hrest : Admissible tight sk rest) :
+    (level env n).logical (s ++ rest) = .ok ({ node := canon A sk, ty := .bool }, rest) := by
+  rw [level_logical]
+  exact (all_ok hA (s.length + 1)).2 sk s (Nat.lt_succ_self _) hr n hn rest hrest
+
+open WfModel.Render in
+/-- **precedence_whole_filter**: the AST read from ANY rendering of the chain
+`first o₁ e₁ … oₙ eₙ` (any `n`, any mix of operators, aliases and layout; operands are atoms,
+`not …` or `( … )`, recursively) is the `layered` tree of the operands' meanings — split at
+`or`, every chunk at `xor`, every chunk of that at `and`, same-operator chains ONE flat node:
+`and` > `xor` > `or` at the character level. -/
+theorem precedence_whole_filter {α : Type} (env : PEnv) (A : Atoms α) (tight : Bool)
+    (hA : ∀ a, GoodAtom env A tight a) (first : Sk α) (ops : List (LogicalOp × Sk α))
+    (s : Input) (n : Nat) (hr : Renders A tight (.chain first ops) s)
+    (hn : depth (.chain first ops) ≤ n)
+    (rest : Input) (hrest : Admissible tight (.chain first ops) rest) :
+    (level env n).logical (s ++ rest) =
+      .ok ({ node := layered (canon A first) (canonRest A ops), ty := .bool }, rest) :=
+  parse_render_logical env A tight hA (.chain first ops) s n hr hn rest hrest
+
+open WfModel.Render in
+/-- **not binds tightest, whole filter**: in any rendering of `not x o₁ e₁ … oₙ eₙ` the `not`
+applies to `x` alone — the first operand of the layered tree is `unaryNot (canon x)`. -/
+theorem not_binds_tightest_whole_filter {α : Type} (env : PEnv) (A : Atoms α) (tight : Bool)
+    (hA : ∀ a, GoodAtom env A tight a) (x : Sk α) (ops : List (LogicalOp × Sk α))
+    (s : Input) (n : Nat) (hr : Renders A tight (.chain (.not x) ops) s)
+    (hn : depth (.chain (.not x) ops) ≤ n)
+    (rest : Input) (hrest : Admissible tight (.chain (.not x) ops) rest) :
+    (level env n).logical (s ++ rest) =
+      .ok ({ node := layered (.unaryNot (canon A x)) (canonRest A ops), ty := .bool }, rest) :=
+  parse_render_logical env A tight hA (.chain (.not x) ops) s n hr hn rest hrest
+
+open WfModel.Render in
+/-- whole filters: `FilterParser::parse` of a rendering (no leading/trailing whitespace, nesting
+within `max_nesting_depth`) is `canon sk` -/
+theorem parse_render_filter {α : Type} (env : PEnv) (A : Atoms α) (tight : Bool)
+    (hA : ∀ a, GoodAtom env A tight a) (sk : Sk α) (s : Input)
+    (hr : Renders A tight sk s) (hd : depth sk ≤ env.st.maxDepth) (htrim : trim s = s) :
+    parseFilter env s = .ok (canon A sk) := by
+  have h := parse_render_logical env A tight hA sk s env.st.maxDepth hr hd []
+    ⟨fun _ => rfl, rfl⟩
+  rw [List.append_nil] at h
+  simp [parseFilter, htrim, h, complete]
+
 /-! ## 6. Translator tie: the tables of the model are the tables of the source -/
 
 /-- `lex_enum!(LogicalOp)`: spellings, lexing order, variants. -/
@@ -305,6 +370,37 @@ example :
       .combining .and [(atom 'b').node, (atom 'c').node, (atom 'd').node],
       .combining .xor [(atom 'e').node, .combining .and [(atom 'f').node, (atom 'g').node]],
       (atom 'h').node] := rfl
+
+/-- character level: `GoodAtom` holds for the boolean fields `a`, `b` of a concrete scheme … -/
+example (tight : Bool) : ∀ x : Render.AB, Render.GoodAtom Render.exEnv Render.exAtoms tight x :=
+  Render.exAtoms_good tight
+
+/-- … `a or b && a and b or a ^^ b and a || b` is a rendering of the eight-operand chain … -/
+example : Render.Renders Render.exAtoms false Render.exSk8
+    "a or b && a and b or a ^^ b and a || b".toList := Render.exRenders8
+
+/-- … so the real parser entry point returns `or[a, and[b,a,b], xor[a, and[b,a]], b]` on it -/
+example : parseFilter Render.exEnv "a or b && a and b or a ^^ b and a || b".toList =
+    .ok (.combining .or
+      [.comparison (.field 0 []) .isTrue,
+       .combining .and [.comparison (.field 1 []) .isTrue, .comparison (.field 0 []) .isTrue,
+         .comparison (.field 1 []) .isTrue],
+       .combining .xor [.comparison (.field 0 []) .isTrue,
+         .combining .and [.comparison (.field 1 []) .isTrue, .comparison (.field 0 []) .isTrue]],
+       .comparison (.field 1 []) .isTrue]) :=
+  parse_render_filter Render.exEnv Render.exAtoms false (Render.exAtoms_good false) Render.exSk8 _
+    Render.exRenders8 (by decide) (by decide)
+
+/-- `nota  and( b ||a)⏎  xorb` is `xor[and[not a, (or[b,a])], b]`: `not` binds to `a` only -/
+example : parseFilter Render.exEnv "nota  and( b ||a)\r\n  xorb".toList =
+    .ok (.combining .xor
+      [.combining .and
+        [.unaryNot (.comparison (.field 0 []) .isTrue),
+         .paren (.combining .or [.comparison (.field 1 []) .isTrue,
+                                 .comparison (.field 0 []) .isTrue])],
+       .comparison (.field 1 []) .isTrue]) :=
+  parse_render_filter Render.exEnv Render.exAtoms true (Render.exAtoms_good true) Render.exSk _
+    Render.exRenders₃ (by decide) (by decide)
 
 example : OrdOp.ge.intRel (-9223372036854775808) 9223372036854775807 = False := by
   simp [OrdOp.intRel]
